@@ -146,6 +146,16 @@ def _extract_bits(bs, s_, w_):
   return tot
 
 
+def _extract_term(bs, s_, w_, st):
+  """bits [s_, s_+w_) of the number with bytes bs as a term; byte-aligned extractions are composed from
+  the same byte terms (and registered), so no new base-256 representation is introduced"""
+  if s_ % 8 == 0 and (w_ is None or w_ % 8 == 0):
+    lo = s_ // 8
+    hi = len(bs) if w_ is None else min(len(bs), lo + w_ // 8)
+    return _compose(list(bs[lo:hi]), st)
+  return _extract_bits(bs, s_, w_)
+
+
 def _pow2_exp(n):
   if isinstance(n, int) and not isinstance(n, bool) and n > 0 and (n & (n - 1)) == 0:
     return n.bit_length() - 1
@@ -279,9 +289,86 @@ def _structural_bytes_op(op, a, b, st):
   return None
 
 
+def _structural_bits_op(op, a, b, st):
+  """& | ^ << >> on operands with a registered bit decomposition (flag words): computed bit by bit"""
+  if not isinstance(op, (ast.BitAnd, ast.BitOr, ast.BitXor, ast.LShift, ast.RShift)):
+    return None
+  if isinstance(op, (ast.LShift, ast.RShift)):
+    if not isinstance(b, int) or isinstance(b, bool) or b < 0 or not is_symint(a):
+      return None
+    ba = st.bits_of(a)
+    if ba is None:
+      return None
+    if isinstance(op, ast.LShift):
+      return st.compose_bits([0] * b + list(ba))
+    return st.compose_bits(list(ba[b:]))
+  sa = is_symint(a) and st.bits_of(a) is not None
+  sb_ = is_symint(b) and st.bits_of(b) is not None
+  if not (sa or sb_):
+    return None
+  x, y = (a, b) if sa else (b, a)
+  bx = list(st.bits_of(x))
+  if isinstance(y, int) and not isinstance(y, bool):
+    if y < 0:
+      # y = ~n, n >= 0 : only the low len(bx) bits of x can be set
+      n = ~y
+      if isinstance(op, ast.BitAnd):
+        return st.compose_bits([0 if (n >> i) & 1 else bx[i] for i in range(len(bx))])
+      return None
+    width = max(len(bx), y.bit_length())
+    bx = bx + [0] * (width - len(bx))
+    out = []
+    for i in range(width):
+      m = (y >> i) & 1
+      if isinstance(op, ast.BitAnd):
+        out.append(bx[i] if m else 0)
+      elif isinstance(op, ast.BitOr):
+        out.append(1 if m else bx[i])
+      else:
+        out.append((1 - bx[i]) if m and isinstance(bx[i], int) else (z3.IntVal(1) - bx[i] if m else bx[i]))
+    return st.compose_bits(out)
+  by = st.bits_of(y)
+  if by is None:
+    return None
+  by = list(by)
+  width = max(len(bx), len(by))
+  bx = bx + [0] * (width - len(bx))
+  by = by + [0] * (width - len(by))
+  out = []
+  for p_, q_ in zip(bx, by):
+    if isinstance(p_, int) and isinstance(q_, int):
+      out.append({ast.BitAnd: p_ & q_, ast.BitOr: p_ | q_, ast.BitXor: p_ ^ q_}[type(op)])
+      continue
+    if isinstance(op, ast.BitAnd):
+      if isinstance(p_, int):
+        out.append(q_ if p_ else 0)
+      elif isinstance(q_, int):
+        out.append(p_ if q_ else 0)
+      else:
+        out.append(z3.If(zint(p_) + zint(q_) == 2, z3.IntVal(1), z3.IntVal(0)))
+    elif isinstance(op, ast.BitOr):
+      if isinstance(p_, int):
+        out.append(1 if p_ else q_)
+      elif isinstance(q_, int):
+        out.append(1 if q_ else p_)
+      else:
+        out.append(z3.If(zint(p_) + zint(q_) >= 1, z3.IntVal(1), z3.IntVal(0)))
+    else:
+      if isinstance(p_, int):
+        out.append((z3.IntVal(1) - zint(q_)) if p_ else q_)
+      elif isinstance(q_, int):
+        out.append((z3.IntVal(1) - zint(p_)) if q_ else p_)
+      else:
+        out.append(z3.If(zint(p_) + zint(q_) == 1, z3.IntVal(1), z3.IntVal(0)))
+  return st.compose_bits(out)
+
+
 def num_binop(I_, op, a, b, st, ctx, k, node):
   """a, b int-like / real-like, at least one symbolic"""
   if is_symint(a) or is_symint(b):
+    r_ = _structural_bits_op(op, a, b, st)
+    if r_ is not None:
+      return k(st, r_)
     r_ = _structural_bytes_op(op, a, b, st)
     if r_ is not None:
       return k(st, r_)
@@ -315,8 +402,8 @@ def num_binop(I_, op, a, b, st, ctx, k, node):
         bs_ = st2.decompose_any(x)
         if bs_ is not None:
           if isinstance(op, ast.FloorDiv):
-            return k(st2, concretize(_extract_bits(bs_, e_, None)))
-          return k(st2, concretize(_extract_bits(bs_, 0, e_)))
+            return k(st2, concretize_(_extract_term(bs_, e_, None, st2)))
+          return k(st2, concretize_(_extract_term(bs_, 0, e_, st2)))
       if isinstance(b, int) and b > 0:
         return k(st2, concretize(x / y if isinstance(op, ast.FloorDiv) else x % y))
       q = fresh_int("q")
@@ -342,7 +429,7 @@ def num_binop(I_, op, a, b, st, ctx, k, node):
       if b > 0:
         bs = st.decompose_any(x)
         if bs is not None:
-          return k(st, concretize(_extract_bits(bs, b, None)))
+          return k(st, concretize_(_extract_term(bs, b, None, st)))
       return k(st, concretize(x / _pow2(b)))
     return shift_sym(I_, op, a, b, st, ctx, k, node)
   if isinstance(op, ast.Pow):
@@ -368,6 +455,10 @@ def num_binop(I_, op, a, b, st, ctx, k, node):
     if ca is not None or cb is not None:
       m = ca if ca is not None else cb
       xs = y if ca is not None else x
+      import os as _os
+      if _os.environ.get("PYVC_DEBUG") and "wildcards" in str(xs)[:4000]:
+        sys.stderr.write("BITFALLBACK at %s op=%s m=%s registered=%s\n  term=%s\n" % (
+          I_.where(ctx, node), type(op).__name__, m, xs.get_id() in st.bitdecomp, str(xs)[:300].replace("\n", " ")))
       andv = bitand_const(xs, int(m), st)
       if isinstance(op, ast.BitAnd):
         return k(st, concretize(andv))
@@ -634,25 +725,33 @@ def _native_binop(op, a, b):
 
 def values_eq(I_, a, b, st, ctx, k, node):
   """k(st, bool-or-formula) for a == b"""
-  if isinstance(a, Union):
-    # formula over alternatives when each comparison is pure
+  if isinstance(a, Union) or isinstance(b, Union):
+    la = a.alts if isinstance(a, Union) else [(True, a)]
+    lb = b.alts if isinstance(b, Union) else [(True, b)]
     parts = []
-    try:
-      for g, alt in a.alts:
-        r = pure_eq(I_, alt, b, st)
-        parts.append(zand(g, r))
-      return k(st, concretize_(zor(*parts)))
-    except _NotPure:
-      return I_.split(a, st, lambda st2, x: values_eq(I_, x, b, st2, ctx, k, node))
-  if isinstance(b, Union):
-    parts = []
-    try:
-      for g, alt in b.alts:
-        r = pure_eq(I_, a, alt, st)
-        parts.append(zand(g, r))
-      return k(st, concretize_(zor(*parts)))
-    except _NotPure:
-      return I_.split(b, st, lambda st2, y: values_eq(I_, a, y, st2, ctx, k, node))
+    impure = []
+    for ga, xa in la:
+      for gb, xb in lb:
+        g = zand(ga, gb)
+        if g is False:
+          continue
+        try:
+          parts.append(zand(g, pure_eq(I_, xa, xb, st)))
+        except _NotPure:
+          impure.append((g, xa, xb))
+    if not impure:
+      return k(st, concretize_(zor(*parts)) if parts else False)
+    # pairs that need interpreted code: evaluate each under its guard, combine into one formula
+    def step(j, st2, acc):
+      if j >= len(impure):
+        return k(st2, concretize_(zor(*acc)) if acc else False)
+      g, xa, xb = impure[j]
+      if not st2.feasible(g):
+        return step(j + 1, st2, acc)
+      def got(st3, r):
+        return I_.truth(r, st3, ctx, lambda st4, t: step(j + 1, st4, acc + [zand(g, t)]), node)
+      return values_eq(I_, xa, xb, st2, ctx, got, node)
+    return step(0, st, list(parts))
   try:
     return k(st, pure_eq(I_, a, b, st))
   except _NotPure:
@@ -725,7 +824,7 @@ def pure_eq(I_, a, b, st):
     if is_sym(a) or is_sym(b):
       if is_symreal(a) or is_symreal(b) or isinstance(a, float) or isinstance(b, float):
         return concretize(zreal(a) == zreal(b))
-      return concretize(zint(a) == zint(b))
+      return int_eq(a, b, st)
     return a == b
   if (is_byteslike(a) and is_byteslike(b)) or (is_strlike(a) and is_strlike(b)):
     if not isinstance(a, SBytes) and not isinstance(b, SBytes):
@@ -745,6 +844,48 @@ def pure_eq(I_, a, b, st):
      (isinstance(b, tuple) and (is_numlike(a) or is_byteslike(a) or is_strlike(a))):
     return False
   raise _NotPure()
+
+
+def int_eq(a, b, st):
+  """a == b for ints; values with a known base-256 representation are compared digit by digit
+  (equivalent, and far easier for the solver than equating two weighted sums)"""
+  if is_symint(a) and is_symint(b):
+    ea, eb = st.unsigned_of.get(a.get_id()), st.unsigned_of.get(b.get_id())
+    if ea is not None and eb is not None and ea[2] == eb[2]:
+      a, b = ea[1], eb[1]
+  ba = st.bits_of(a) if not isinstance(a, bool) else None
+  bb = st.bits_of(b) if not isinstance(b, bool) else None
+  if ba is not None and bb is not None and (is_sym(a) or is_sym(b)):
+    n = max(len(ba), len(bb))
+    ba = list(ba) + [0] * (n - len(ba))
+    bb = list(bb) + [0] * (n - len(bb))
+    cs = []
+    for x, y in zip(ba, bb):
+      if isinstance(x, int) and isinstance(y, int):
+        if x != y:
+          return False
+        continue
+      if is_sym(x) and is_sym(y) and x.eq(y):
+        continue
+      cs.append(zint(x) == zint(y))
+    return concretize_(zand(*cs)) if cs else True
+  da = _cheap_decomp(a, st) if (is_symint(a) or isinstance(a, int)) and not isinstance(a, bool) else None
+  db = _cheap_decomp(b, st) if (is_symint(b) or isinstance(b, int)) and not isinstance(b, bool) else None
+  if da is not None and db is not None and (is_sym(a) or is_sym(b)) and (len(da) > 1 or len(db) > 1):
+    n = max(len(da), len(db))
+    da = list(da) + [0] * (n - len(da))
+    db = list(db) + [0] * (n - len(db))
+    cs = []
+    for x, y in zip(da, db):
+      if isinstance(x, int) and isinstance(y, int):
+        if x != y:
+          return False
+        continue
+      if is_sym(x) and is_sym(y) and x.eq(y):
+        continue
+      cs.append(zint(x) == zint(y))
+    return concretize_(zand(*cs)) if cs else True
+  return concretize(zint(a) == zint(b))
 
 
 def seq_eq(I_, xs, ys, st, ctx, k, node):
@@ -999,6 +1140,9 @@ def getattr_value(I_, obj, name, st, ctx, k, node=None):
         return k(st, I_.bind(f, target, tcls))
     return I_.raise_exc(st, ctx, AttributeError, "super object has no attribute " + name, node)
   if isinstance(obj, SBytes):
+    if not hasattr("" if obj.is_str else b"", name):
+      return I_.raise_exc(st, ctx, AttributeError, "'%s' object has no attribute '%s'"
+                          % ("str" if obj.is_str else "bytes", name), node)
     return k(st, BuiltinMethod(name, obj))
   if isinstance(obj, ExcVal):
     if name == "args":
